@@ -953,6 +953,55 @@ def ipcw_part(ctx, fails, cases):
 
 
 # =============================================================================================== driver
+def ipcw_large_part(ctx, fails, seeds):
+    """a long-format file of realistic length (thousands of subjects, heavy per-visit drop-out): the cumulative products and the
+    weights against a per-subject reference computed with numpy from the implementation's OWN per-row probabilities (the
+    definition "product over the subject's earlier records" does not depend on how many subjects precede it in the file)"""
+    from zepid.causal.ipw import IPCW
+    for seed in seeds:
+        rs = np.random.RandomState(seed)
+        nsub = int(rs.randint(7000, 10000))
+        x = np.round(rs.normal(size=nsub), 2)
+        rows = []
+        visits = rs.geometric(0.22, size=nsub).clip(1, 6)
+        ev = rs.binomial(1, 0.1, size=nsub)
+        ids = np.repeat(np.arange(1, nsub + 1), visits)
+        t = np.concatenate([np.arange(1, v + 1) for v in visits]).astype(float)
+        last = np.concatenate([np.r_[np.zeros(v - 1), 1] for v in visits])
+        df = pd.DataFrame({'id': ids, 't': t, 'd': (last * np.repeat(ev, visits)).astype(int), 'x': np.repeat(x, visits)})
+        df['rid'] = np.arange(len(df))
+        cs = {'den': 'x + t', 'num': '1', 'seed': int(seed), 'part': 'ipcw-large'}
+        ctx.evaluations += 1
+        ctx.count('ipcw-large: %d-thousand rows' % (len(df) // 1000))
+        try:
+            o = run_ipcw(df, cs)
+        except Exception as e:   # noqa
+            fails.append((len(df), 'IPCW.raises', 'IPCW on a %d-row cohort raised %s: %s' % (len(df), type(e).__name__, str(e)[:100]), cs))
+            continue
+        ctx.programs += 1
+        out = o['df']
+        gid = out['id']
+        for col, ccol in (('__numer__', '__cnumer__'), ('__denom__', '__cdenom__')):
+            ref = np.exp(np.log(out[col].astype(float)).groupby(gid).cumsum())      # per-subject running product
+            ref2 = out[col].astype(float).groupby(gid).cumprod()
+            got = out[ccol].astype(float)
+            ctx.disagreements_checked += 1
+            rel = np.abs(got - ref2) / np.abs(ref2)
+            if not np.all(np.isfinite(got)) or float(rel.max()) > 1e-9:
+                j = int(np.argmax(np.where(np.isfinite(rel), rel, np.inf)))
+                fails.append((len(df), 'IPCW.cumulative-product.large-file',
+                              'IPCW on a %d-row cohort (%d subjects): %s of row %d (id %d) is %r, the product of the subject\'s own %s '
+                              'up to that record is %r (log-sum check %r)' % (len(df), nsub, ccol, j, int(gid.iloc[j]), float(got.iloc[j]), col,
+                                                                              float(ref2.iloc[j]), float(ref.iloc[j])), cs))
+        w = np.asarray(o['w'], dtype=float)
+        wref = np.asarray(out['__numer__'].astype(float).groupby(gid).cumprod() / out['__denom__'].astype(float).groupby(gid).cumprod())
+        ctx.disagreements_checked += 1
+        if not np.all(np.isfinite(w)) or float(np.max(np.abs(w - wref) / np.abs(wref))) > 1e-9:
+            j = int(np.argmax(np.abs(w - wref) / np.abs(wref)))
+            fails.append((len(df), 'IPCW.Weight.large-file', 'IPCW on a %d-row cohort: Weight of row %d is %r, cumulative numerator over cumulative '
+                          'denominator of that subject is %r' % (len(df), j, float(w[j]), float(wref[j])), cs))
+
+
 def run(ctx):
     import time
     fails = []
@@ -963,7 +1012,8 @@ def run(ctx):
             ('iptw-missing', lambda: missing_part(ctx, fails, [gen_iptw_case(ctx, missing=True) for _ in range(4 if q else 24)])),
             ('stochastic', lambda: stoch_part(ctx, fails, [gen_stoch_case(ctx) for _ in range(10 if q else 80)])),
             ('ipmw', lambda: ipmw_part(ctx, fails, [gen_ipmw_case(ctx, kinds[i % len(kinds)]) for i in range(64 if q else 600)])),
-            ('ipcw', lambda: ipcw_part(ctx, fails, [gen_ipcw_case(ctx) for _ in range(24 if q else 200)]))):
+            ('ipcw', lambda: ipcw_part(ctx, fails, [gen_ipcw_case(ctx) for _ in range(24 if q else 200)])),
+            ('ipcw-large', lambda: ipcw_large_part(ctx, fails, [ctx.rng.randrange(2 ** 31) for _ in range(1 if q else 4)]))):
         t0 = time.time()
         fn()
         ctx.extra.setdefault('part_seconds', {})[name] = round(time.time() - t0, 1)
@@ -1000,6 +1050,8 @@ def replay(ctx, payload):
         ipmw_part(ctx, fails, [payload])
     elif part == 'ipcw':
         ipcw_part(ctx, fails, [payload])
+    elif part == 'ipcw-large':
+        ipcw_large_part(ctx, fails, [payload['seed']])
     else:
         return run(ctx)
     report(ctx, fails)
